@@ -125,6 +125,27 @@ mod private {
             // restore the matrix state the following observations expect
             let _ = with_dl!(|d: &DamerauLevenshtein| d.distance(&t1.view(0), &t2.view(0)));
         }
+        // the two words as words of ONE text (views into the same buffers, as the words of a title are)
+        let mut shared_err: Option<String> = None;
+        if !deep || c1.len() + c2.len() <= 8 {
+            let mut both = word_text(&[c1, c2].concat(), &[&k1[..], &k2[..]].concat());
+            let mut w2 = both.words[0].clone();
+            both.words[0].slice = (0, c1.len());
+            both.words[0].stem = c1.len();
+            w2.offset = 1;
+            w2.slice = (c1.len(), c1.len() + c2.len());
+            w2.stem = c2.len();
+            both.words.push(w2);
+            let got = DamerauLevenshtein::new().distance(&both.view(0), &both.view(1));
+            let same = DamerauLevenshtein::new().distance(&both.view(0), &both.view(0));
+            cx.eval();
+            cx.count("calls on two words of one text");
+            if got != DamerauLevenshtein::new().distance(&t1.view(0), &t2.view(0)) {
+                shared_err = Some(format!("as two words of one text the distance is {}", got));
+            } else if same != 0.0 {
+                shared_err = Some(format!("a word of a text against itself gives {}", same));
+            }
+        }
         let d21 = with_dl!(|d: &DamerauLevenshtein| d.distance(&t2.view(0), &t1.view(0)));
         let fresh = DamerauLevenshtein::new().distance(&t1.view(0), &t2.view(0));
         cx.eval();
@@ -151,6 +172,9 @@ mod private {
         }
         if let Some(e) = reclass_err {
             errs.push(format!("depends-on-history({})", e));
+        }
+        if let Some(e) = shared_err {
+            errs.push(format!("depends-on-where-the-words-are-stored({})", e));
         }
         let a1 = word_text(c1, &vec![CharClass::Any; c1.len()]);
         let a2 = word_text(c2, &vec![CharClass::Any; c2.len()]);
@@ -238,6 +262,20 @@ mod private {
         }
         if dist != 1.0 - exp {
             errs.push("rel_dist-not-1-minus-similarity");
+        }
+        // the two arguments may be parts of one buffer: a sequence against its own prefix / suffix / itself
+        if !s1.is_empty() {
+            let k = (s1.len() / 2).max(1);
+            for (a, b, what) in [(&s1[..k], s1, "its own prefix (same buffer)"), (s1, &s1[..k], "its own prefix (same buffer), reversed"), (&s1[k - 1..], s1, "its own suffix (same buffer)"), (s1, s1, "itself (same buffer)")].iter() {
+                let got = JC.with(|j| j.similarity(a, b));
+                let exp = oracle::set_jaccard(a, b);
+                cx.eval();
+                cx.count("calls whose arguments are parts of one buffer");
+                if got != exp {
+                    cx.fail_sig("jaccard", "jaccard:not-the-set-similarity".into(), json!({"seq1": s(a), "seq2": s(b), "arguments": what, "similarity": got, "expected": exp}));
+                    break;
+                }
+            }
         }
         if !s1.is_empty() && !s2.is_empty() {
             cx.key(hparts(&[&s(s1), &s(s2)]));
@@ -369,6 +407,9 @@ impl Prims {
         let words = [
             "metal", "mettle", "mailbox", "me", "m", "yellow", "shirt", "t", "wi", "fi", "the", "für", "ёлка", "a", "aa", "aaa", "aaaa", "abab", "baba", "", "ab",
             "straße", "œuvre", "t-shirt", "aab", "b", "𝐀𝐁𝐂", "😀😀", "𝐀b", "a\u{0}b",
+            // letters above U+FFFF whose low 16 bits are a BMP letter, next to the words they would collide with if a
+            // gram were packed into 16 bits per letter ([x,a,U+20061] ~ [x,c,a]; [x,U+20061,r] ~ [z,a,r])
+            "xa\u{20061}", "xca", "x\u{20061}r", "zar", "\u{20061}bc", "abc", "\u{20062}\u{20061}", "ba",
         ];
         let n = match cx.rng.below(40) {
             0 => *cx.rng.pick(&[1023, 1024, 1025, 4096, 5000, 8200, 9000, 66000]),
@@ -383,6 +424,14 @@ impl Prims {
             }
         }
         let k = cx.rng.range(2, words.len());
+        // one store in ten draws from the last eight words only (the non-BMP letters and their BMP look-alikes)
+        let lo = if cx.rng.chance(1, 10) { words.len() - 8 } else { 0 };
+        let k = if lo > 0 { words.len() } else { k };
+        if lo > 0 {
+            cx.count("stores of words with letters above U+FFFF and their 16-bit look-alikes");
+        }
+        let words = &words[lo..];
+        let k = k - lo;
         let recs: Vec<Rec> = (0..n)
             .map(|i| {
                 let m = cx.rng.below(4);
@@ -758,7 +807,7 @@ impl Prop for Prims {
         match self.0 {
             Which::Distance => vec![("exhaustive pairs", 100000, 2000000), ("prefix cells compared", 1000000, 20000000), ("pairs where a discount lowered the distance", 10000, 100000), ("random pairs beyond capacity 20", 500, 5000), ("long pairs with sampled prefix cells", 200, 2000), ("random cases with per-position character classes", 2000, 20000), ("re-classed repeat calls", 10000, 100000), ("hook matrix growths", 3, 3), ("hook matrix max size", 50, 50)],
             Which::Jaccard => vec![("exhaustive pairs", 100000, 1500000), ("pairs with partial overlap", 20000, 200000), ("pairs beyond the initial capacity of 20", 500, 5000), ("random cases over a wide alphabet", 1000, 10000), ("hook jaccard accesses", 100000, 1000000)],
-            Which::Index => vec![("prepare calls", 5000, 50000), ("capped calls", 500, 5000), ("calls with ties at the cut", 100, 1000), ("size 0", 300, 3000), ("corpus prepare calls", 200, 2000), ("stores of 1023-5000 records", 50, 500), ("queries with more than 255 distinct grams", 300, 15000), ("calls at the boundary between 'all listed' and 'capped'", 300, 15000), ("session calls on one index", 1000000, 10000000), ("most calls on one index max ", 131000, 131000), ("sessions past 2^17 calls", 2, 20), ("calls with a query without words", 300, 3000)],
+            Which::Index => vec![("prepare calls", 5000, 50000), ("capped calls", 500, 5000), ("calls with ties at the cut", 100, 1000), ("size 0", 300, 3000), ("corpus prepare calls", 200, 2000), ("stores of 1023-5000 records", 50, 500), ("queries with more than 255 distinct grams", 300, 15000), ("calls at the boundary between 'all listed' and 'capped'", 300, 15000), ("session calls on one index", 1000000, 10000000), ("most calls on one index max ", 131000, 131000), ("sessions past 2^17 calls", 2, 20), ("calls with a query without words", 300, 3000), ("stores of words with letters above U+FFFF and their 16-bit look-alikes", 300, 3000)],
             Which::Unchecked => vec![("direct distance/similarity calls", 20000, 200000), ("direct calls beyond capacity 20", 5000, 50000), ("store-level searches", 5000, 50000), ("store-level rounds with 127-1500 records", 200, 2000), ("store-level rounds with clear and re-add", 500, 5000), ("type-ahead sequences with adds in between", 1000, 10000), ("direct call sequences with words of 76-420 letters", 200, 2000), ("direct call sequences with arithmetic length relations", 300, 3000), ("store-level queries of 65-200 words", 300, 3000), ("searches on a surviving store after a neighbour store was dropped", 3000, 30000), ("stores filled on one thread and searched on another", 500, 5000), ("jaccard calls on sets of 256-70000 distinct elements", 20, 200), ("hook matrix accesses", 1000000, 10000000), ("hook matrix growths", 3, 3), ("hook matrix max size", 50, 50), ("hook counter accesses", 10000, 100000), ("hook cost accesses", 100000, 1000000), ("hook jaccard accesses", 10000, 100000)],
         }
     }
